@@ -351,13 +351,24 @@ theorem specRetag_uniform {Pi L : Nat} {S : List Ev} (hwf : WFCart 1 Pi L S) (hr
 
 /-! ### the nested shape `dot[cart₁[0 … Pi-1], plain ports]` -/
 
-def nestItems (Pi : Nat) (plains : List Nat) : List Item :=
-  Item.sub (.cart 1) (List.range Pi) :: plains.map Item.port
+/-- an outer dot product whose items are the plain ports `A`, then an inner combinator of kind `k` over ports
+    `0 … Pi-1`, then the plain ports `B` -/
+def nestItemsAt (k : Kind) (Pi : Nat) (A B : List Nat) : List Item :=
+  A.map Item.port ++ Item.sub k (List.range Pi) :: B.map Item.port
+
+def nestItems (Pi : Nat) (plains : List Nat) : List Item := nestItemsAt (.cart 1) Pi [] plains
+
+/-- what the proofs need to know about the item list: the inner combinator of kind `k` over ports `0 … Pi-1` sits at
+    position `i0`, every plain port has its own position -/
+structure Shape (items : List Item) (i0 : Nat) (k : Kind) (Pi : Nat) (plains : List Nat) : Prop where
+  sub : ∀ p, findSub p items 0 = if p < Pi then some (i0, k, List.range Pi) else none
+  pos : i0 < items.length
+  port : ∀ p ∈ plains, ∃ j, findPort p items 0 = some j ∧ j ≠ i0 ∧ j < items.length
 
 def isInner (Pi : Nat) (e : Ev) : Bool := decide (e.1 < Pi)
 
-/-- an inner schema as the outer combinator files it: item 0, tag `get_tag` of its tokens -/
-def mk0 (σ : Emit) : CF.Ev := (0, ⟨schemaTag σ, σ⟩)
+/-- an inner schema as the outer combinator files it: item `i0`, tag `get_tag` of its tokens -/
+def mkI (i0 : Nat) (σ : Emit) : CF.Ev := (i0, ⟨schemaTag σ, σ⟩)
 
 /-- a token of a plain port as the outer combinator files it: the position of the port in `items` -/
 def plainEv (items : List Item) (e : Ev) : CF.Ev :=
@@ -365,9 +376,9 @@ def plainEv (items : List Item) (e : Ev) : CF.Ev :=
 
 /-- **the element stream of the outer combinator as a function of the input stream** (up to order): the specified
     schemas of the inner cartesian product, and the tokens of the plain ports -/
-def derivedSpec (Pi : Nat) (plains : List Nat) (S : List Ev) : List CF.Ev :=
-  (specCart 1 Pi (S.filter (isInner Pi))).map mk0 ++
-    (S.filter (fun e => !isInner Pi e)).map (plainEv (nestItems Pi plains))
+def derivedSpec (items : List Item) (i0 Pi : Nat) (S : List Ev) : List CF.Ev :=
+  (specCart 1 Pi (S.filter (isInner Pi))).map (mkI i0) ++
+    (S.filter (fun e => !isInner Pi e)).map (plainEv items)
 
 structure WFNest (Pi L : Nat) (plains : List Nat) (S : List Ev) : Prop where
   inner : WFCart 1 Pi L (S.filter (isInner Pi))
@@ -441,18 +452,108 @@ theorem findSub_ports (p : Nat) : ∀ (l : List Nat) (i : Nat), findSub p (l.map
   | nil => intro i; rfl
   | cons q r ih => intro i; simp only [List.map_cons, findSub]; exact ih _
 
-theorem findSub_nest (Pi : Nat) (plains : List Nat) (p : Nat) :
-    findSub p (nestItems Pi plains) 0 = if p < Pi then some (0, Kind.cart 1, List.range Pi) else none := by
-  simp only [nestItems, findSub, List.mem_range]
-  split
-  · rfl
-  · exact findSub_ports p plains 1
+theorem findPort_inj_gen (p p' : Nat) : ∀ (l : List Item) (i j : Nat),
+    findPort p l i = some j → findPort p' l i = some j → p = p' := by
+  intro l
+  induction l with
+  | nil => intro i j h; simp [findPort] at h
+  | cons x r ih =>
+    intro i j h h'
+    cases x with
+    | sub k ports =>
+      simp only [findPort] at h h'
+      exact ih _ _ h h'
+    | port q =>
+      simp only [findPort] at h h'
+      by_cases hq : q = p
+      · by_cases hq' : q = p'
+        · exact hq.symm.trans hq'
+        · rw [if_pos hq] at h
+          rw [if_neg hq'] at h'
+          cases h
+          have := findPort_ge p' _ _ _ h'
+          omega
+      · rw [if_neg hq] at h
+        by_cases hq' : q = p'
+        · rw [if_pos hq'] at h'
+          cases h'
+          have := findPort_ge p _ _ _ h
+          omega
+        · rw [if_neg hq'] at h'
+          exact ih _ _ h h'
 
-theorem plainEv_item {Pi : Nat} {plains : List Nat} {e : Ev} (h : e.1 ∈ plains) :
-    ∃ j, findPort e.1 (nestItems Pi plains) 0 = some j ∧ 1 ≤ j ∧ j < (nestItems Pi plains).length := by
-  obtain ⟨j, h1, h2, h3⟩ := findPort_ports e.1 plains 1 h
-  refine ⟨j, by simp only [nestItems, findPort]; exact h1, h2, ?_⟩
-  simp [nestItems]; omega
+theorem findSub_append_ports (p : Nat) (rest : List Item) : ∀ (l : List Nat) (i : Nat),
+    findSub p (l.map Item.port ++ rest) i = findSub p rest (i + l.length) := by
+  intro l
+  induction l with
+  | nil => intro i; rfl
+  | cons q r ih =>
+    intro i
+    simp only [List.map_cons, List.cons_append, findSub, List.length_cons]
+    rw [ih]
+    congr 1
+    omega
+
+theorem findPort_append_mem (p : Nat) (rest : List Item) : ∀ (l : List Nat) (i : Nat), p ∈ l →
+    ∃ j, findPort p (l.map Item.port ++ rest) i = some j ∧ i ≤ j ∧ j < i + l.length := by
+  intro l
+  induction l with
+  | nil => intro i h; cases h
+  | cons q r ih =>
+    intro i h
+    simp only [List.map_cons, List.cons_append, findPort]
+    by_cases hq : q = p
+    · exact ⟨i, by simp [hq], Nat.le_refl _, by simp⟩
+    · have hr : p ∈ r := by
+        rcases List.mem_cons.mp h with h | h
+        · exact absurd h.symm hq
+        · exact h
+      obtain ⟨j, h1, h2, h3⟩ := ih (i + 1) hr
+      exact ⟨j, by simp [hq, h1], by omega, by simp; omega⟩
+
+theorem findPort_append_not_mem (p : Nat) (rest : List Item) : ∀ (l : List Nat) (i : Nat), p ∉ l →
+    findPort p (l.map Item.port ++ rest) i = findPort p rest (i + l.length) := by
+  intro l
+  induction l with
+  | nil => intro i _; rfl
+  | cons q r ih =>
+    intro i h
+    simp only [List.mem_cons, not_or] at h
+    have hq : ¬ q = p := fun e => h.1 e.symm
+    simp only [List.map_cons, List.cons_append, findPort, hq, if_false, List.length_cons]
+    rw [ih _ h.2]
+    congr 1
+    omega
+
+/-- the item list `A ++ [inner] ++ B` has the shape the proofs need -/
+theorem shape_at (k : Kind) (Pi : Nat) (A B : List Nat) :
+    Shape (nestItemsAt k Pi A B) A.length k Pi (A ++ B) := by
+  refine ⟨?_, ?_, ?_⟩
+  · intro p
+    simp only [nestItemsAt]
+    rw [findSub_append_ports]
+    simp only [findSub, List.mem_range, Nat.zero_add]
+    split
+    · rfl
+    · exact findSub_ports p B _
+  · simp [nestItemsAt]
+  · intro p hp
+    simp only [nestItemsAt]
+    by_cases hA : p ∈ A
+    · obtain ⟨j, h1, _, h3⟩ := findPort_append_mem p (Item.sub k (List.range Pi) :: B.map Item.port) A 0 hA
+      exact ⟨j, h1, by omega, by simp; omega⟩
+    · have hB : p ∈ B := by
+        rcases List.mem_append.mp hp with h | h
+        · exact absurd h hA
+        · exact h
+      rw [findPort_append_not_mem p _ A 0 hA]
+      simp only [findPort, Nat.zero_add]
+      obtain ⟨j, h1, h2, h3⟩ := findPort_ports p B (A.length + 1) hB
+      exact ⟨j, h1, by omega, by simp; omega⟩
+
+theorem shape_first (Pi : Nat) (plains : List Nat) : Shape (nestItems Pi plains) 0 (.cart 1) Pi plains := by
+  have := shape_at (.cart 1) Pi [] plains
+  simpa [nestItems] using this
 
 theorem schemaTag_uniform {σ : Emit} {τ : Tag} (hne : σ ≠ []) (hr : τ.head? = some 0)
     (h : ∀ y ∈ σ, y.2.tag = τ) : schemaTag σ = τ := by
@@ -473,9 +574,9 @@ theorem rooted_filter {S : List Ev} (h : Rooted S) (p : Ev → Bool) : Rooted (S
   fun e he => h e (List.mem_filter.mp he).1
 
 /-- what an inner event of the derived specification looks like -/
-theorem mem_inner_part {Pi L : Nat} {plains : List Nat} {S : List Ev} (h : WFNest Pi L plains S) {x : CF.Ev}
-    (hx : x ∈ (specCart 1 Pi (S.filter (isInner Pi))).map mk0) :
-    ∃ σ ∈ preCart 1 Pi (S.filter (isInner Pi)), x = mk0 (specRetag σ) ∧
+theorem mem_inner_part {Pi L : Nat} {plains : List Nat} {S : List Ev} (h : WFNest Pi L plains S) (i0 : Nat) {x : CF.Ev}
+    (hx : x ∈ (specCart 1 Pi (S.filter (isInner Pi))).map (mkI i0)) :
+    ∃ σ ∈ preCart 1 Pi (S.filter (isInner Pi)), x = mkI i0 (specRetag σ) ∧
       ∃ τ : Tag, τ.length = L - 1 + Pi ∧ τ.head? = some 0 ∧ specRetag σ ≠ [] ∧ (∀ y ∈ specRetag σ, y.2.tag = τ) ∧
         x.2.tag = τ ∧
         ∀ σ' ∈ preCart 1 Pi (S.filter (isInner Pi)), (∀ y ∈ specRetag σ', y.2.tag = τ) → σ' = σ := by
@@ -484,11 +585,12 @@ theorem mem_inner_part {Pi L : Nat} {plains : List Nat} {S : List Ev} (h : WFNes
   obtain ⟨τ, t1, t2, t3, t4, _, t6⟩ := specRetag_uniform h.inner (rooted_filter h.rooted _) hσ
   exact ⟨σ, hσ, rfl, τ, t1, t2, t3, t4, schemaTag_uniform t3 t2 t4, t6⟩
 
-theorem derivedSpec_ok {Pi L : Nat} {plains : List Nat} {S : List Ev} (h : WFNest Pi L plains S) :
-    ∀ x ∈ derivedSpec Pi plains S, ElemOK x.2 := by
+theorem derivedSpec_ok {Pi L : Nat} {plains : List Nat} {S : List Ev} (h : WFNest Pi L plains S)
+    (items : List Item) (i0 : Nat) :
+    ∀ x ∈ derivedSpec items i0 Pi S, ElemOK x.2 := by
   intro x hx
   rcases List.mem_append.mp hx with hx | hx
-  · obtain ⟨σ, _, rfl, τ, _, t2, t3, t4, t5, _⟩ := mem_inner_part h hx
+  · obtain ⟨σ, _, rfl, τ, _, t2, t3, t4, t5, _⟩ := mem_inner_part h i0 hx
     refine ⟨?_, t3, ?_⟩
     · rw [t5]; exact t2
     · intro y hy
@@ -500,9 +602,9 @@ theorem derivedSpec_ok {Pi L : Nat} {plains : List Nat} {S : List Ev} (h : WFNes
     simp only [plainEv, Elem.ofTok, List.mem_singleton] at hy
     rw [hy]; rfl
 
-theorem derivedSpec_wf {Pi L : Nat} {plains : List Nat} {S : List Ev} (h : WFNest Pi L plains S) :
-    CF.WF (plains.length + 1) (derivedSpec Pi plains S) := by
-  have hlen : (nestItems Pi plains).length = plains.length + 1 := by simp [nestItems]
+theorem derivedSpec_wf {Pi L : Nat} {plains : List Nat} {S : List Ev} (h : WFNest Pi L plains S)
+    {items : List Item} {i0 : Nat} {k : Kind} (hs : Shape items i0 k Pi plains) :
+    CF.WF items.length (derivedSpec items i0 Pi S) := by
   have hplain : ∀ e ∈ S.filter (fun e => !isInner Pi e), e ∈ S ∧ ¬ e.1 < Pi ∧ e.1 ∈ plains := by
     intro e he
     obtain ⟨h1, h2⟩ := List.mem_filter.mp he
@@ -519,7 +621,7 @@ theorem derivedSpec_wf {Pi L : Nat} {plains : List Nat} {S : List Ev} (h : WFNes
       apply hne
       obtain ⟨τ, _, _, _, t4, _, t6⟩ := specRetag_uniform h.inner (rooted_filter h.rooted _) hσ'
       have e' : specRetag σ = specRetag σ' := by
-        simp only [Function.comp, mk0, Prod.mk.injEq, Elem.mk.injEq, true_and] at e
+        simp only [Function.comp, mkI, Prod.mk.injEq, Elem.mk.injEq, true_and] at e
         exact e.2
       exact t6 σ hσ (fun y hy => t4 y (e' ▸ hy))
     · refine List.Pairwise.map _ ?_ (h.nodup.filter _)
@@ -533,47 +635,45 @@ theorem derivedSpec_wf {Pi L : Nat} {plains : List Nat} {S : List Ev} (h : WFNes
     · intro a ha b hb hab
       obtain ⟨σ, _, rfl⟩ := List.mem_map.mp ha
       obtain ⟨e, he, rfl⟩ := List.mem_map.mp hb
-      obtain ⟨j, hj, hj1, _⟩ := plainEv_item (Pi := Pi) (hplain e he).2.2
+      obtain ⟨j, hj, hj1, _⟩ := hs.port e.1 (hplain e he).2.2
       have := congrArg Prod.fst hab
-      simp only [mk0, plainEv, hj, Option.getD_some] at this
-      omega
+      simp only [mkI, plainEv, hj, Option.getD_some] at this
+      exact hj1 this.symm
   · intro x hx
     rcases List.mem_append.mp hx with hx | hx
     · obtain ⟨σ, _, rfl⟩ := List.mem_map.mp hx
-      simp [mk0]
+      exact hs.pos
     · obtain ⟨e, he, rfl⟩ := List.mem_map.mp hx
-      obtain ⟨j, hj, _, hj2⟩ := plainEv_item (Pi := Pi) (hplain e he).2.2
+      obtain ⟨j, hj, _, hj2⟩ := hs.port e.1 (hplain e he).2.2
       simp only [plainEv, hj, Option.getD_some]
-      omega
+      exact hj2
   · intro x hx x' hx' hitem hpre
     rcases List.mem_append.mp hx with hx | hx <;> rcases List.mem_append.mp hx' with hx' | hx'
-    · obtain ⟨σ, hσ, rfl, τ, t1, _, _, t4, t5, _⟩ := mem_inner_part h hx
-      obtain ⟨σ', hσ', rfl, τ', t1', _, _, _, t5', t6'⟩ := mem_inner_part h hx'
+    · obtain ⟨σ, hσ, rfl, τ, t1, _, _, t4, t5, _⟩ := mem_inner_part h i0 hx
+      obtain ⟨σ', hσ', rfl, τ', t1', _, _, _, t5', t6'⟩ := mem_inner_part h i0 hx'
       rw [t5, t5'] at hpre
       have : τ = τ' := List.IsPrefix.eq_of_length_le (CF.pre_iff.mp hpre).1 (by omega)
       subst this
       rw [t6' σ hσ t4]
     · obtain ⟨σ, _, rfl⟩ := List.mem_map.mp hx
       obtain ⟨e, he, rfl⟩ := List.mem_map.mp hx'
-      obtain ⟨j, hj, hj1, _⟩ := plainEv_item (Pi := Pi) (hplain e he).2.2
-      simp only [mk0, plainEv, hj, Option.getD_some] at hitem
-      omega
+      obtain ⟨j, hj, hj1, _⟩ := hs.port e.1 (hplain e he).2.2
+      simp only [mkI, plainEv, hj, Option.getD_some] at hitem
+      exact absurd hitem.symm hj1
     · obtain ⟨e, he, rfl⟩ := List.mem_map.mp hx
       obtain ⟨σ, _, rfl⟩ := List.mem_map.mp hx'
-      obtain ⟨j, hj, hj1, _⟩ := plainEv_item (Pi := Pi) (hplain e he).2.2
-      simp only [mk0, plainEv, hj, Option.getD_some] at hitem
-      omega
+      obtain ⟨j, hj, hj1, _⟩ := hs.port e.1 (hplain e he).2.2
+      simp only [mkI, plainEv, hj, Option.getD_some] at hitem
+      exact absurd hitem hj1
     · obtain ⟨e, he, rfl⟩ := List.mem_map.mp hx
       obtain ⟨e', he', rfl⟩ := List.mem_map.mp hx'
       obtain ⟨heS, hni, hpl⟩ := hplain e he
       obtain ⟨heS', _, hpl'⟩ := hplain e' he'
-      obtain ⟨j, hj, _, _⟩ := plainEv_item (Pi := Pi) hpl
-      obtain ⟨j', hj', _, _⟩ := plainEv_item (Pi := Pi) hpl'
+      obtain ⟨j, hj, _, _⟩ := hs.port e.1 hpl
+      obtain ⟨j', hj', _, _⟩ := hs.port e'.1 hpl'
       simp only [plainEv, hj, hj', Option.getD_some] at hitem
       subst hitem
-      have hport : e.1 = e'.1 := by
-        simp only [nestItems, findPort] at hj hj'
-        exact findPort_inj _ _ _ _ _ hj hj'
+      have hport : e.1 = e'.1 := findPort_inj_gen _ _ _ _ _ hj hj'
       have hpre' : e.2.tag <+: e'.2.tag := by
         have := (CF.pre_iff.mp hpre).1
         simpa [plainEv, Elem.ofTok] using this
@@ -632,18 +732,19 @@ theorem lookup_setI (inn : List (Nat × TV)) (i : Nat) (tv : TV) : (setI inn i t
 
 /-- the element stream of the outer combinator is an interleaving of the inner combinator's emissions (in
     emission order) and the tokens of the plain ports -/
-theorem derived_split (Pi : Nat) (plains : List Nat) : ∀ (es : List Ev) (inn : List (Nat × TV)),
-    (runWith (cartAdd 1 (List.range Pi)) (es.filter (isInner Pi)) ((inn.lookup 0).getD []) []).err = none →
-    (derived (nestItems Pi plains) es inn).Perm
-      ((runWith (cartAdd 1 (List.range Pi)) (es.filter (isInner Pi)) ((inn.lookup 0).getD []) []).out.map mk0
-        ++ (es.filter (fun e => !isInner Pi e)).map (plainEv (nestItems Pi plains))) := by
+theorem derived_split {items : List Item} {i0 Pi : Nat} {plains : List Nat} (hs : Shape items i0 (.cart 1) Pi plains) :
+    ∀ (es : List Ev) (inn : List (Nat × TV)),
+    (runWith (cartAdd 1 (List.range Pi)) (es.filter (isInner Pi)) ((inn.lookup i0).getD []) []).err = none →
+    (derived items es inn).Perm
+      ((runWith (cartAdd 1 (List.range Pi)) (es.filter (isInner Pi)) ((inn.lookup i0).getD []) []).out.map (mkI i0)
+        ++ (es.filter (fun e => !isInner Pi e)).map (plainEv items)) := by
   intro es
   induction es with
   | nil => intro inn _; simp [derived, runWith]
   | cons ev es ih =>
     obtain ⟨p, t⟩ := ev
     intro inn herr
-    simp only [derived, findSub_nest]
+    simp only [derived, hs.sub]
     by_cases hp : p < Pi
     · have hf1 : ((p, t) :: es).filter (isInner Pi) = (p, t) :: es.filter (isInner Pi) := by
         simp [List.filter_cons, isInner, hp]
@@ -653,7 +754,7 @@ theorem derived_split (Pi : Nat) (plains : List Nat) : ∀ (es : List Ev) (inn :
       rw [hf2]
       simp only [hp, if_true, innerAdd]
       simp only [runWith] at herr ⊢
-      generalize hr : cartAdd 1 (List.range Pi) ((inn.lookup 0).getD []) p (Elem.ofTok p t) = r at herr ⊢
+      generalize hr : cartAdd 1 (List.range Pi) ((inn.lookup i0).getD []) p (Elem.ofTok p t) = r at herr ⊢
       cases hre : r.err with
       | some x => rw [hre] at herr; simp at herr
       | none =>
@@ -661,8 +762,8 @@ theorem derived_split (Pi : Nat) (plains : List Nat) : ∀ (es : List Ev) (inn :
         simp only at herr ⊢
         rw [runWith_shift] at herr
         simp only at herr
-        have hl : ((setI inn 0 r.tv).lookup 0).getD [] = r.tv := by rw [lookup_setI]; rfl
-        have := ih (setI inn 0 r.tv) (by rw [hl]; exact herr)
+        have hl : ((setI inn i0 r.tv).lookup i0).getD [] = r.tv := by rw [lookup_setI]; rfl
+        have := ih (setI inn i0 r.tv) (by rw [hl]; exact herr)
         rw [hl] at this
         rw [runWith_shift]
         simp only [List.nil_append, List.map_append, List.append_assoc]
@@ -677,23 +778,24 @@ theorem derived_split (Pi : Nat) (plains : List Nat) : ∀ (es : List Ev) (inn :
       refine (List.Perm.cons _ (ih inn herr)).trans ?_
       exact List.perm_middle.symm
 
-theorem innerOK_cart (Pi : Nat) (plains : List Nat) : ∀ (es : List Ev) (inn : List (Nat × TV)),
-    (runWith (cartAdd 1 (List.range Pi)) (es.filter (isInner Pi)) ((inn.lookup 0).getD []) []).err = none →
-    InnerOK (nestItems Pi plains) es inn := by
+theorem innerOK_cart {items : List Item} {i0 Pi : Nat} {plains : List Nat} (hs : Shape items i0 (.cart 1) Pi plains) :
+    ∀ (es : List Ev) (inn : List (Nat × TV)),
+    (runWith (cartAdd 1 (List.range Pi)) (es.filter (isInner Pi)) ((inn.lookup i0).getD []) []).err = none →
+    InnerOK items es inn := by
   intro es
   induction es with
   | nil => intro inn _; trivial
   | cons ev es ih =>
     obtain ⟨p, t⟩ := ev
     intro inn herr
-    simp only [InnerOK, findSub_nest]
+    simp only [InnerOK, hs.sub]
     by_cases hp : p < Pi
     · have hf1 : ((p, t) :: es).filter (isInner Pi) = (p, t) :: es.filter (isInner Pi) := by
         simp [List.filter_cons, isInner, hp]
       rw [hf1] at herr
       simp only [hp, if_true, innerAdd]
       simp only [runWith] at herr
-      generalize hr : cartAdd 1 (List.range Pi) ((inn.lookup 0).getD []) p (Elem.ofTok p t) = r at herr ⊢
+      generalize hr : cartAdd 1 (List.range Pi) ((inn.lookup i0).getD []) p (Elem.ofTok p t) = r at herr ⊢
       cases hre : r.err with
       | some x => rw [hre] at herr; simp at herr
       | none =>
@@ -701,8 +803,8 @@ theorem innerOK_cart (Pi : Nat) (plains : List Nat) : ∀ (es : List Ev) (inn : 
         simp only at herr
         rw [runWith_shift] at herr
         simp only at herr
-        have hl : ((setI inn 0 r.tv).lookup 0).getD [] = r.tv := by rw [lookup_setI]; rfl
-        exact ⟨rfl, ih (setI inn 0 r.tv) (by rw [hl]; exact herr)⟩
+        have hl : ((setI inn i0 r.tv).lookup i0).getD [] = r.tv := by rw [lookup_setI]; rfl
+        exact ⟨rfl, ih (setI inn i0 r.tv) (by rw [hl]; exact herr)⟩
     · have hf1 : ((p, t) :: es).filter (isInner Pi) = es.filter (isInner Pi) := by
         simp [List.filter_cons, isInner, hp]
       rw [hf1] at herr
@@ -712,26 +814,25 @@ theorem innerOK_cart (Pi : Nat) (plains : List Nat) : ∀ (es : List Ev) (inn : 
 /-- **nested `dot[cart₁[p0 … p(Pi-1)], plain ports]`, any arrival order**: the schemas `runNested` emits are — each
     up to the order of its entries — exactly one combination per complete tag of the derived specification, which
     is a function of the input stream only -/
-theorem nested_cart_any_order {Pi L : Nat} {plains : List Nat} (S es : List Ev) (h : WFNest Pi L plains S)
-    (hp : es.Perm S) :
-    (runNested (nestItems Pi plains) es).err = none ∧
-    ∃ N, EmRel (runNested (nestItems Pi plains) es).out N ∧
-      N.Perm (specE (plains.length + 1) (derivedSpec Pi plains S)) := by
+theorem nested_cart_any_order {Pi L : Nat} {plains : List Nat} {items : List Item} {i0 : Nat}
+    (hs : Shape items i0 (.cart 1) Pi plains) (S es : List Ev) (h : WFNest Pi L plains S) (hp : es.Perm S) :
+    (runNested items es).err = none ∧
+    ∃ N, EmRel (runNested items es).out N ∧
+      N.Perm (specE items.length (derivedSpec items i0 Pi S)) := by
   have hin : (es.filter (isInner Pi)).Perm (S.filter (isInner Pi)) := hp.filter _
   obtain ⟨herr, hout⟩ := runCart_any_order _ _ h.inner hin
   unfold runCart at herr hout
-  have hsplit := derived_split Pi plains es [] (by simpa using herr)
+  have hsplit := derived_split hs es [] (by simpa using herr)
   simp only [List.lookup, Option.getD_none] at hsplit
-  have hD : (derived (nestItems Pi plains) es []).Perm (derivedSpec Pi plains S) := by
+  have hD : (derived items es []).Perm (derivedSpec items i0 Pi S) := by
     refine hsplit.trans ?_
     unfold derivedSpec
-    exact (hout.map mk0).append ((hp.filter _).map _)
-  have hlen : (nestItems Pi plains).length = plains.length + 1 := by simp [nestItems]
-  have hres := dotElems_any_order _ _ (derivedSpec_wf h) (derivedSpec_ok h) hD
+    exact (hout.map (mkI i0)).append ((hp.filter _).map _)
+  have hres := dotElems_any_order _ _ (derivedSpec_wf h hs) (derivedSpec_ok h items i0) hD
   refine ⟨?_, ?_⟩
-  · rw [runNested_err _ _ (innerOK_cart Pi plains es [] (by simpa using herr)), hlen]
+  · rw [runNested_err _ _ (innerOK_cart hs es [] (by simpa using herr))]
     exact hres.1
-  · rw [runNested_out, hlen]
+  · rw [runNested_out]
     exact hres.2
 
 end SFV.Comb
